@@ -14,7 +14,7 @@
    The theorems quantify over ALL histories: any order, valid and invalid sizes, repeated values, parts of wider values. *)
 From Coq Require Import ZArith List Bool.
 From Verif Require Import ConstPool.ConstPoolModel ConstPool.ConstPoolSpec ConstPool.ConstPoolInv ConstPool.ConstPoolProofs
-  ConstPool.ConstPoolJudge ConstPool.ConstPoolJudgeProofs ConstPool.ConstPoolTreeBridge ConstPool.ConstPoolPartition.
+  ConstPool.ConstPoolJudge ConstPool.ConstPoolJudgeProofs ConstPool.ConstPoolTreeBridge ConstPool.ConstPoolPartition ConstPool.ConstPoolSharing.
 Import ListNotations.
 Local Open Scope Z_scope.
 
@@ -221,6 +221,86 @@ Theorem C19_beyond_4GiB_refuted_general : forall p d,
 Proof. exact offset_truncation_general. Qed.
 Print Assumptions C19_beyond_4GiB_refuted_general.
 
+(* sub-constant sharing is COMPLETE (the feature described in constpool.h: "AsmJit is able to subdivide added constants"):
+   after any history, adding any aligned part of at least 4 bytes (sizes 4 .. size/2) of any byte-owning constant -- as its
+   bytes stand in the image -- allocates nothing: the pool state is unchanged and the answer is an offset holding these bytes *)
+Theorem C19_subconstants_shared : forall cmds, wf_cmds cmds -> guard cmds ->
+  let p := final cmds in
+  forall off s, In (off, s) (flat_map stored (trees p)) ->
+  forall s' i, valid_size s' -> 4 <= s' < s -> 0 <= i -> (i + 1) * s' <= s ->
+  exists o', cp_add p (slice (cp_fill p) (off + i * s') s') s' = (p, Ok o') /\
+             slice (cp_fill p) o' s' = slice (cp_fill p) (off + i * s') s'.
+Proof. exact subconstants_shared_thm. Qed.
+Print Assumptions C19_subconstants_shared.
+
+Theorem C19_subconstants_shared_example :
+  let cmds := [([0; 1; 2; 3; 4; 5; 6; 7; 8; 9; 10; 11; 12; 13; 14; 15], 16)] in
+  wf_cmds cmds /\ guard cmds /\ In (0, 16) (flat_map stored (trees (final cmds))) /\
+  cp_add (final cmds) [8; 9; 10; 11] 4 = (final cmds, Ok 8).
+Proof. exact subconstants_example. Qed.
+Print Assumptions C19_subconstants_shared_example.
+
+(* Compiler-level constants: BaseCompiler::_new_const adds to the scope's pool and builds the memory operand
+   [pool_label + int32_t(offset)] of the constant's size. While the pool stays within 2 GiB the operand's displacement IS the
+   offset ConstPool::add answered (so every statement above about offsets holds for the operands the Compiler emits); a refused
+   size yields no operand and leaves the pool untouched *)
+Theorem C19_new_const_operand : forall p d s p' o,
+  Inv p -> wf_cmd d s -> new_const_operand p d s = (p', o) -> psize p' <= 2147483648 ->
+  match o with
+  | Some (disp, sz) => cp_add p d s = (p', Ok disp) /\ sz = s /\ valid_size s /\ 0 <= disp /\ disp + s <= psize p'
+  | None => ~ valid_size s /\ p' = p
+  end.
+Proof. exact new_const_operand_thm. Qed.
+Print Assumptions C19_new_const_operand.
+
+(* ... beyond 2 GiB the int32 cast wraps (state-level witness; needs 2^25 64-byte constants, not exercised, no finding) *)
+Theorem C19_new_const_beyond_2GiB_refuted :
+  exists p d s, Inv p /\ wf_cmd d s /\ psize p = 2147483648 /\
+    snd (cp_add p d s) = Ok 2147483648 /\ snd (new_const_operand p d s) = Some (-2147483648, s).
+Proof. exact new_const_operand_2GiB_refuted. Qed.
+Print Assumptions C19_new_const_beyond_2GiB_refuted.
+
+(* frame -- what ONE add (from any state satisfying the invariant, whatever it answers) must NOT change: no node is
+   removed or altered, size() and alignment() never shrink, a refused add leaves the state untouched, and every byte owned
+   by a constant that was already stored is the same in the image written afterwards *)
+Theorem C19_add_frame : forall p d s p' r,
+  Inv p -> wf_cmd d s -> cp_add p d s = (p', r) -> psize p' <= 4294967296 ->
+  (forall j n, In n (nth j (trees p) []) -> In n (nth j (trees p') [])) /\
+  psize p <= psize p' /\ palign p <= palign p' /\
+  (r = InvalidArgument -> p' = p) /\
+  (forall j n x, In n (nth j (trees p) []) -> n_shared n = false -> covers n x ->
+     nth x (cp_fill p') 0 = nth x (cp_fill p) 0).
+Proof. exact add_frame_thm. Qed.
+Print Assumptions C19_add_frame.
+
+(* the model's functions are the ones determined by the record of structural constants `model_params` (index count, the
+   enum of sizes, the if-chain of ConstPool_addGap, the sharing threshold, the width of Node::_offset, the two quirk flags of
+   the gap loop, the two flags of fill). tools/c19_params.py re-extracts that record from the SOURCE on every run and
+   coq/gen/C19_Params.v re-proves `src_params = model_params` (obligation C19_params_ok of the check) *)
+Theorem C19_model_built_from_params :
+  (forall off sz, gap_class off sz = gap_class_of (par_gap_chain model_params) (par_gap_else model_params) off sz) /\
+  cp_init = mkPool (repeat [] (par_index_count model_params)) (repeat [] (par_index_count model_params)) 0 0 0 /\
+  (forall s, valid_size s <-> exists i, In (s, i) (par_index_sizes model_params)) /\
+  (forall s i, In (s, i) (par_index_sizes model_params) -> ctz s = i /\ pow2 i = s /\ (i < par_index_count model_params)%nat) /\
+  (forall z, trunc32 z = z mod 2 ^ par_offset_bits model_params) /\
+  (forall f ts ti ss pc d off, share_loop (S f) ts ti ss pc d off =
+     if par_share_above model_params <? ss
+     then share_loop f (share_row (pred ti) (ss / 2) d off (2 * pc) ts) (pred ti) (ss / 2) (2 * pc)%nat d off else ts) /\
+  (forall n ti size gs acc,
+     gap_loop (S n) ti size gs acc =
+       match nth ti gs [] with
+       | [] => gap_loop n ti size gs acc
+       | (goff, gsz) :: rest =>
+         gap_loop n ti size (if 0 <? gsz - size then add_gap (upd ti rest gs) goff (gsz - size) else upd ti rest gs) (Some goff)
+       end) /\
+  (forall p,
+     cp_fill p = fold_left (fun buf t => fold_left (fun b n => if n_shared n then b else write_at b (n_off n) (n_key n)) t buf)
+                           (trees p) (repeat 0 (Z.to_nat (psize p)))) /\
+  (forall z, wrap_i32 z = (z + 2 ^ (par_new_const_disp_bits model_params - 1)) mod 2 ^ par_new_const_disp_bits model_params
+                          - 2 ^ (par_new_const_disp_bits model_params - 1)).
+Proof. exact params_used. Qed.
+Print Assumptions C19_model_built_from_params.
+
 (* the fuel parameters of the model's two fuelled loops (sub-constant levels, ConstPool_addGap) never cut a loop short:
    more fuel gives the same result, i.e. the model computes what the unbounded C++ loops compute *)
 Theorem C19_model_loops_total : forall extra : nat,
@@ -243,7 +323,8 @@ Theorem C19_judge_sound : forall tr img sz al mn, judge tr img sz al mn = true -
   Z.of_nat (length img) = sz /\
   (forall x, 0 <= x < sz -> (forall d s off, In (d, s, Ok off) tr -> ~ (off <= x < off + s)) -> nth (Z.to_nat x) img 0 = 0) /\
   ((exists d off, In (d, al, Ok off) tr) \/ (al = 0 /\ forall d s off, ~ In (d, s, Ok off) tr)) /\
-  (((exists d off, In (d, mn, Ok off) tr) /\ sz mod mn = 0 /\ 0 < mn <= al) \/ (mn = 0 /\ forall d s off, ~ In (d, s, Ok off) tr)).
+  (((exists d off, In (d, mn, Ok off) tr) /\ sz mod mn = 0 /\ 0 < mn <= al) \/ (mn = 0 /\ forall d s off, ~ In (d, s, Ok off) tr)) /\
+  sz <= 2 * total_len (nodup range_eq_dec (ok_ranges tr)).   (* size() <= twice the bytes of the distinct answered ranges (C19_quirk_cost) *)
 Proof. exact judge_sound. Qed.
 Print Assumptions C19_judge_sound.
 
